@@ -60,7 +60,7 @@ CLAIMED["C02"] = dict(
         "recursion (BROADCAST_MASK same-constant stores) and the distance matrix; corollaries: threads irrelevant, merge after children, meetup after both halves. The pragma text is "
         "regenerated on every run (structured skeleton + every raw `#pragma omp` line + thread-count use sites + writable globals) and pinned by `decide`; the map from directive "
         "lists to program shapes is computed. Tie/search: byte comparison against the no-OpenMP build for n_threads 1..64 with seeded schedule jitter at the hooks, trace "
-        "validation of hook event logs as linearisations (children complete before a merge, halves finished before meetup, overlapping merges disjoint), TSan pass (thorough).",
+        "validation of hook event logs as linearisations (children complete before a merge, halves finished before meetup, overlapping merges disjoint), TSan pass (thorough). Runs with OMP_MAX_ACTIVE_LEVELS=2 (the two Hirschberg halves then really overlap) on lengths at the work-space growth sizes, repeated, against the serial build.",
    note="A-omp: OpenMP runtime / compiler / memory model trusted; atoms assumed to be functions of their declared footprints (validated dynamically). A theorem cannot exhibit a racy "
         "execution; the schedule search tries to.",
    technique="Lean 4 fork-join determinacy proof over footprints + regenerated pragma skeleton pinned by `decide`; schedule-perturbation search and trace validation",
